@@ -271,6 +271,12 @@ theorem C18_parse_render (e : List Tok) (hne : e ≠ []) (hwf : ∀ t ∈ e, WfT
     parseExpr (renderExpr e) = some e ∧ xpSteps (renderExpr e) = e.map renderTok :=
   ⟨parseExpr_renderExpr e hne hwf hN, xpSteps_render e hne hwf hN⟩
 
+/-- the hypothesis about the text, structurally: the rendering of a grammar expression contains no
+`**/**` when no plain `**` token is directly followed by a token whose tag is `**` (`NoDD`) -/
+theorem C18_parse_render_noDD (e : List Tok) (hne : e ≠ []) (hwf : ∀ t ∈ e, WfTok t) (hdd : NoDD e) :
+    parseExpr (renderExpr e) = some e ∧ xpSteps (renderExpr e) = e.map renderTok :=
+  C18_parse_render e hne hwf (renderExpr_noStars e hwf hdd)
+
 /-- so `findall` on the rendered string is `findall` on the list of rendered steps -/
 theorem C18_findall_rendered (findFirst : Bool) (root : XVal) (e : List Tok) (hne : e ≠ [])
     (hwf : ∀ t ∈ e, WfTok t) (hN : isInfix starsPat (renderExpr e) = false) :
@@ -301,6 +307,14 @@ example : ∀ t ∈ exExpr, WfTok t := by
   · refine ⟨Or.inr (Or.inr ⟨by decide +kernel, by decide +kernel⟩), Or.inl rfl, by decide +kernel, by decide +kernel, ?_⟩
     intro _; decide +kernel
 example : parseExpr (s "**/a[1][text()!=z]/../*[*]/b_2[text()=none]") = some exExpr := by decide +kernel
+example : NoDD exExpr := by
+  refine ⟨?_, ?_, ?_, ?_, trivial⟩
+  · rintro ⟨_, st, h, ht⟩
+    cases h
+    revert ht; decide +kernel
+  · rintro ⟨h, _⟩; revert h; decide +kernel
+  · rintro ⟨h, _⟩; cases h
+  · rintro ⟨h, _⟩; revert h; decide +kernel
 
 /-- **C18 (findfirst / in, string form).**  For every expression string. -/
 theorem C18_findfirst_str (root : XVal) (xp : Str) (r : Option (List Hit))
